@@ -15,14 +15,20 @@ open Prom Prom.Conc Hp Prom.Handoff
 /-- the events a compare-exchange loop on a sum cell accepts are on that sum cell -/
 theorem casLoop_loc {e : Ev} {c : Hp.St} {pc : Pc} {b : Bool} {cell : Nat} {a : Int} {onOk r : Res}
     (h : casLoop e c pc b cell a onOk = .ok r) : parseLoc e.loc = .sum b := by
-  unfold casLoop at h
-  split at h
-  · rw [guard_ok] at h; obtain ⟨hg, _⟩ := h
+  have hload : ∀ x, casLoad e c pc b x = .ok r → parseLoc e.loc = .sum b := by
+    intro x h
+    unfold casLoad at h
+    rw [guard_ok] at h; obtain ⟨hg, _⟩ := h
     simp only [Bool.and_eq_true, beq_iff_eq] at hg
     exact hg.1.1.1.2
-  · rw [guard_ok] at h; obtain ⟨hg, _⟩ := h
-    simp only [Bool.and_eq_true, beq_iff_eq] at hg
-    exact hg.1.1.1.1.1.2
+  unfold casLoop at h
+  split at h
+  · exact hload _ h
+  · split at h
+    · exact hload _ h
+    · rw [guard_ok] at h; obtain ⟨hg, _⟩ := h
+      simp only [Bool.and_eq_true, beq_iff_eq] at hg
+      exact hg.1.1.1.1.1.2
 
 /-- **what touches a count cell** — an event the machine accepts whose location is the count of
     shard `b` is one of exactly three steps: the publish of an observer on `b` (a `fetch_add` with an
